@@ -29,9 +29,10 @@ var docURLs = []string{
 	"file:///r/s/root.json.bak",  // 9 sibling file whose name extends the root document's name
 	"http://h:8080/r/s/sib.json", // 10 same path as the sibling file, on a host with a port (with Site 1: the root's host, another port)
 	"file:///r/s/sub/sub/o.json", // 11 from sub/o.json under the relative path that leads from the root to sub/o.json
+	"http://h/x/y.json?v=2",      // 12 differs from document 4 by its query only (references from and to it are written in full)
 }
 
-var docNames = []string{"root", "sibling", "subdir", "parentdir", "absolute-http", "prefix-sibling-dir", "subdir2", "cousin", "same-path-other-site", "name-extends-root-name", "same-host-other-port", "subdir-of-subdir-same-file-name"}
+var docNames = []string{"root", "sibling", "subdir", "parentdir", "absolute-http", "prefix-sibling-dir", "subdir2", "cousin", "same-path-other-site", "name-extends-root-name", "same-host-other-port", "subdir-of-subdir-same-file-name", "same-url-other-query"}
 
 const (
 	formProperties = iota
@@ -273,6 +274,10 @@ func spell(src, dst, frag string, sp int) string {
 	}
 	sameDoc := src == dst
 	sameSite := su.Scheme == du.Scheme && su.Host == du.Host
+	if !sameDoc && (su.RawQuery != "" || du.RawQuery != "") {
+		// relative references from or to a remote document with a query are outside the properties (C12)
+		return dst + hash
+	}
 	rel := func() string {
 		r, err := relPath(path.Dir(su.Path), du.Path)
 		if err != nil {
